@@ -37,9 +37,11 @@ def run_variant(v) -> tuple[str, bool, str]:
         if rel is not None:
             p = tmp / rel
             s = p.read_text()
-            if s.count(old) != count:
-                return vid, False, f"pattern occurs {s.count(old)}x in {rel} (expected {count})"
-            s = s.replace(old, new)
+            pairs = old if isinstance(old, list) else [(old, new)]
+            for o, n in pairs:
+                if s.count(o) != count:
+                    return vid, False, f"pattern {o[:40]!r} occurs {s.count(o)}x in {rel} (expected {count})"
+                s = s.replace(o, n)
             if rel.endswith(".py"):
                 try:
                     ast.parse(s)
